@@ -17,6 +17,7 @@ import Gv.Proofs.PartitionOutcome
 import Gv.Proofs.PhylipHeader
 import Gv.Proofs.NexusHeader
 import Gv.Proofs.PhylipMulti
+import Gv.Proofs.Utf8Norm
 /-!
 C03 — parsers terminate on every input with an error or a well-formed result.
 
@@ -915,5 +916,136 @@ set_option maxRecDepth 100000 in
 example : (match Nexus.topLoop ⟨true, true, true, true, true, true, true⟩ ((Nexus.sIW nexusSample).2.length + 3) (Nexus.sIW nexusSample).2 {} with
     | .ok top => top.data.map fun d => (d.ntax, d.nchar)
     | _ => none) = some (2, 3) := by decide
+
+/-! ## ALL byte strings: the lexers read runes (`Model/Fmt/Utf8.lean`)
+
+The parsers `X.parse` above work on the bytes the lexer holds after `ReadRune` / `WriteRune`; `X.parseBytes` is the
+parser on the RAW input (`X.parse ∘ Utf8.norm`, plus the places where runes are counted or case-mapped again).  The
+theorems above quantify over all byte strings already, so each of them holds for `parseBytes` as well: the statements
+below are the C03 clauses for the raw input, without any ASCII restriction. -/
+
+/-- on an ASCII input the raw-input parser is the ASCII model -/
+theorem fasta_parseBytes_ascii (fix : Bool) (o : POpts) (bs : List Byte) (h : allAscii bs = true) :
+    Fasta.parseBytes fix o bs = Fasta.parse fix o bs := by
+  unfold Fasta.parseBytes; rw [Gv.Proofs.Utf8Norm.norm_of_ascii bs h]
+
+/-- **FASTA on the raw input, code as it is** (also with the patch), ALL byte strings (bytes ≥ 128 included) and all
+options: never `panic` / `hang` / `exit`; a success is rectangular IN BYTES AS WRITTEN with the reported length, names
+pairwise distinct, at least one column when it has a row; zero rows only for the empty-record shape of what the lexer
+read. -/
+theorem fasta_outcome_bytes_partial (fix : Bool) (o : POpts) (bs : List Byte) :
+    match Fasta.parseBytes fix o bs with
+    | .ok a => (∀ r ∈ a.rows, (r.2.length : Int) = a.length) ∧
+               Spec.Fmt.distinct (a.rows.map (·.1)) = true ∧
+               (a.rows ≠ [] → 1 ≤ a.length) ∧
+               (a.rows = [] → a.length = -1 ∧ EmptyRecords (Utf8.norm bs))
+    | .error => True
+    | .exit | .panic | .hang => False :=
+  fasta_outcome_partial fix o (Utf8.norm bs)
+
+/-- **FASTA on the raw input with the empty-result check**: the full C03 statement for ALL byte strings (bytes ≥ 128
+included) and all options. -/
+theorem fasta_outcome_bytes (o : POpts) (bs : List Byte) : Good (Fasta.parseBytes true o bs) :=
+  fasta_outcome_fixed o (Utf8.norm bs)
+
+/-- non-vacuity: `>a\nAC\xff\n>b\nAC€\n` succeeds with two rows of FIVE bytes (`\xff` is written back as `EF BF BD`) -/
+example : Fasta.parseBytes true {} [62, 97, 10, 65, 67, 0xFF, 10, 62, 98, 10, 65, 67, 0xE2, 0x82, 0xAC, 10] =
+    .ok ⟨3, 5, [([97], [65, 67, 0xEF, 0xBF, 0xBD]), ([98], [65, 67, 0xE2, 0x82, 0xAC])]⟩ := by
+  have h : Utf8.norm [62, 97, 10, 65, 67, 0xFF, 10, 62, 98, 10, 65, 67, 0xE2, 0x82, 0xAC, 10] =
+      [62, 97, 10, 65, 67, 0xEF, 0xBF, 0xBD, 10, 62, 98, 10, 65, 67, 0xE2, 0x82, 0xAC, 10] := by decide
+  unfold Fasta.parseBytes; rw [h]
+  simp [Fasta.parse, Fasta.parseBag, Fasta.lex, Fasta.scan, Fasta.skipEol, Fasta.loop, Fasta.body,
+    Fasta.isEOL, Fasta.identChar, Fasta.afterRun, Fasta.GT, NL, CR, Fasta.stripSpaces, Fasta.noSpaces, SP,
+    Bag.add, Bag.find]
+  decide
+
+/-! ### Phylip, partition, Clustal, Stockholm, Nexus on the raw input -/
+
+theorem phylip_parseBytes_ascii (af : Bool) (o : POpts) (bs : List Byte) (h : allAscii bs = true) :
+    Phylip.parseBytes af o bs = Phylip.parse af o bs := by
+  unfold Phylip.parseBytes; rw [Gv.Proofs.Utf8Norm.norm_of_ascii bs h]
+
+/-- **Phylip (strict and relaxed) on the raw input, the complete C03 statement for ALL byte strings** (bytes ≥ 128
+included; strict names are ten RUNES) and all options: an explicit error, an exit with a message, the end-of-stream marker
+(then what the lexer read is blank up to its first NUL), or an alignment that is well formed - rectangular in BYTES AS
+WRITTEN - and agrees with the counts of the header line as the lexer holds it; never a panic, never a hang. -/
+theorem phylip_outcome_bytes (o : POpts) (bs : List Byte) :
+    match Phylip.parseBytes false o bs with
+    | .ok (some a) =>
+      Spec.Fmt.wellFormed a.length a.rows = true ∧
+      (match Spec.Fmt.declaredPhylip (Utf8.norm bs) with
+       | some (dn, dl) => Spec.Fmt.rowsOk (normIgnore o.ignore != 0) (a.rows.length : Int) dn = true ∧ a.length = dl
+       | none => True)
+    | .ok none => Spec.Fmt.blankToNul (Utf8.norm bs) = true
+    | .error | .exit => True
+    | .panic | .hang => False :=
+  phylip_outcome_full o (Utf8.norm bs)
+
+/-- **`ParseMultiple` on the raw input terminates**, ALL byte strings and options: alignments handed on are well formed;
+no panic, no hang, no allocation band. -/
+theorem phylip_multi_outcome_bytes (o : POpts) (bs : List Byte) :
+    match Phylip.parseMultiBytes false o bs with
+    | .done als _ => ∀ a ∈ als, Spec.Fmt.wellFormed a.length a.rows = true
+    | .slow => False
+    | .stop st => st = .exit :=
+  phylip_multi_outcome o (Utf8.norm bs)
+
+/-- non-vacuity: strict mode, a name field of ten runes (nine letters and `é` = `C3 A9`: eleven bytes), residues `A\xff`
+written as four bytes, declared length 4 -/
+example : Phylip.parseBytes false { strict := true } [32, 49, 32, 52, 10, 97, 98, 99, 100, 101, 102, 103, 104, 105, 0xC3, 0xA9, 65, 0xFF, 10] =
+    .ok (some ⟨3, 4, [([97, 98, 99, 100, 101, 102, 103, 104, 105, 0xC3, 0xA9], [65, 0xEF, 0xBF, 0xBD])]⟩) := by
+  decide
+
+/-- **Partition parser on the raw input**, ALL byte strings, every declared length below 2^63 (with the `AddRange` guard) -/
+theorem partition_outcome_bytes (r : Bool) (len : Nat) (hlen : (len : Int) < 9223372036854775808) (bs : List Byte) :
+    match Partition.parseBytes ⟨r, true⟩ len bs with
+    | .ok ps => ps.length = len ∧ ps.parts.length = len ∧
+                ∀ p ∈ ps.parts, -1 ≤ p ∧ p < (ps.names.length : Int)
+    | .error => True
+    | .exit | .panic | .hang => False :=
+  partition_outcome r len hlen (Utf8.norm bs)
+
+/-- the C03 predicate on an answer of a raw-input model that makes no claim for some inputs -/
+def GoodOpt : Option (Outcome Aln) → Prop
+  | some r => Good r
+  | none => True
+
+/-- **Clustal (row-index repair) on the raw input**: the full C03 statement for ALL byte strings on which the model makes a
+claim (every input without the runes U+0131 / U+017F) and all options -/
+theorem clustal_outcome_bytes (o : POpts) (bs : List Byte) : GoodOpt (Clustal.parseBytes true o bs) := by
+  unfold Clustal.parseBytes; split
+  · trivial
+  · exact clustal_outcome_fixed o (Utf8.norm bs)
+
+/-- **Stockholm (patched) on the raw input**: likewise -/
+theorem stockholm_outcome_bytes (o : POpts) (bs : List Byte) : GoodOpt (Stockholm.parseBytes true true o bs) := by
+  unfold Stockholm.parseBytes; split
+  · trivial
+  · exact stockholm_outcome_fixed o (Utf8.norm bs)
+
+/-- **Nexus (comment and empty-row repairs) on the raw input**: likewise -/
+theorem nexus_outcome_bytes (f : Nexus.Facts) (hc : f.commentStopsAtEof = true) (he : f.rejectsEmptyRows = true)
+    (o : POpts) (bs : List Byte) : GoodOpt (Nexus.parseBytes f o bs) := by
+  unfold Nexus.parseBytes; split
+  · trivial
+  · exact nexus_outcome_fixed f hc he o (Utf8.norm bs)
+
+/-- the claim is made for every ASCII input, and there the raw-input models are the ASCII models -/
+theorem parseBytes_ascii_claim (bs : List Byte) (h : allAscii bs = true) :
+    (∀ c o, Clustal.parseBytes c o bs = some (Clustal.parse c o bs)) ∧
+    (∀ m e o, Stockholm.parseBytes m e o bs = some (Stockholm.parse m e o bs)) ∧
+    (∀ f o, Nexus.parseBytes f o bs = some (Nexus.parse f o bs)) ∧
+    (∀ f len, Partition.parseBytes f len bs = Partition.parse f len bs) := by
+  have hn := Gv.Proofs.Utf8Norm.norm_of_ascii bs h
+  have hf : Utf8.hasFoldRune bs = false := Gv.Proofs.Utf8Norm.hasFoldRune_ascii bs h
+  refine ⟨?_, ?_, ?_, ?_⟩
+  · intro c o; simp [Clustal.parseBytes, hf, hn]
+  · intro m e o; simp [Stockholm.parseBytes, hf, hn]
+  · intro f o; simp [Nexus.parseBytes, hf, hn]
+  · intro f len; simp [Partition.parseBytes, hn]
+
+/-- the claim is made beyond ASCII: `CLUSTAL W\n\na\xff A€\n` -/
+example : (Clustal.parseBytes true {} [67, 76, 85, 83, 84, 65, 76, 32, 87, 10, 10, 97, 0xFF, 32, 65, 0xE2, 0x82, 0xAC, 10]).isSome = true := by
+  decide
 
 end Gv.Props.C03
